@@ -370,17 +370,26 @@ def observable(chk):
     shutil.rmtree(work, ignore_errors=True)
     os.makedirs(work)
     rs = recipes(chk)
-    timeout = 150 if chk.quick else 600
+    timeout = 90 if chk.quick else 600
     pending = list(enumerate(rs))
     running = []
     done = []
     maxpar = 3
+    ntimeouts = 0
     while pending or running:
-        while pending and len(running) < maxpar:
+        while pending and len(running) < maxpar and ntimeouts < 1:
             i, r = pending.pop(0)
             running.append(launch_child(work, i, r))
+        if not running:
+            # a run already hung: do not spend the remaining budget on
+            # more of them (each would cost the full timeout)
+            chk.dist('obs_runs_skipped_after_a_timeout', len(pending))
+            break
         c = running.pop(0)
-        done.append((c, reap_child(c, timeout)))
+        out = reap_child(c, timeout)
+        if out[0]:
+            ntimeouts += 1
+        done.append((c, out))
     nontrivial = 0
     for c, (timed_out, res, wall) in done:
         r = c['recipe']
